@@ -342,6 +342,10 @@ class Engine:
         s.nnl = 0
         s.nprobe = 0
         s.nskipped = 0
+        s.nunsure = 0
+        s.links = {}
+        s.nlink2 = 0
+        s.nlinkfb = 0
 
     # ------------------------------------------------------------------ solver
     def _sync(s, pc):
@@ -410,6 +414,16 @@ class Engine:
                 s.solver.set('timeout', s.o['query_timeout_ms'])
             s.lits = {}
             s.litkeep = []
+        if s.links and any(c.get_id() in s.links for c in cons):
+            r, m2 = s._query_linked(cons, extras)
+            if r is not None:
+                s.nnl += 1
+                s.qt += time.time() - t
+                if r == 'sat':
+                    vals = dict(st.model.vals) if st.model is not None else {}
+                    vals.update(m2)
+                    return 'sat', PModel(vals)
+                return r, None
         if any(is_nonlinear(c) for c in extras) or any(is_nonlinear(c) for c in cons):
             # nonlinear real arithmetic: a dedicated solver, so that these constraints never linger in the shared one
             nls = z3.Solver()
@@ -441,6 +455,97 @@ class Engine:
         if r == z3.unsat:
             return 'unsat', None
         return 'unknown', None
+
+    def _int_of_bv(s, st, v, signed):
+        """the integer value of bit-vector v as an Int term: concrete parts of a concatenation become numbers, every
+        symbolic part an Int variable of its own, tied to its bits by a link constraint that nonlinear queries solve
+        in two phases (arithmetic first, then the bits): see _query_linked()"""
+        if z3.is_bv_value(v):
+            return z3.IntVal(v.as_signed_long() if signed else v.as_long())
+        if z3.is_const(v) and v.get_id() in (st.extra.get('lo_fixed') or {}):
+            return z3.IntVal(st.extra['lo_fixed'][v.get_id()])          # a layer index already fixed on this path (8 bits, unsigned)
+        if z3.is_app_of(v, z3.Z3_OP_CONCAT):
+            parts = v.children()
+            total = None
+            off = v.size()
+            for i, p in enumerate(parts):
+                off -= p.size()
+                t = s._int_of_bv(st, p, signed and i == 0)
+                t = t * z3.IntVal(1 << off) if off else t
+                total = t if total is None else total + t
+            return z3.simplify(total)
+        w = v.size()
+        k = z3.Int('i2f!%d' % len(s.links))
+        link = (k == z3.BV2Int(v, signed))
+        s.links[link.get_id()] = (k, v, signed, link, (-(1 << (w - 1)), (1 << (w - 1)) - 1) if signed else (0, (1 << w) - 1))
+        st.pc.append(link)
+        if st.model is not None:
+            bvv = st.model.eval(v, True)
+            if z3.is_bv_value(bvv):
+                vals = dict(st.model.vals)
+                vals[k.get_id()] = (k, z3.IntVal(bvv.as_signed_long() if signed else bvv.as_long()))
+                st.model = PModel(vals)
+            else:
+                st.model = None
+        return k
+
+    def _query_linked(s, cons, extras):
+        """two-phase decision of a nonlinear query whose integer-to-double conversions are link constraints:
+        (1) the arithmetic part with the linked Int variables only range-bounded (a relaxation: unsat is final),
+        (2) the bit-vector part with the linked bit-vectors fixed to the values of phase 1.
+        returns (None, None) when the split does not apply or phase 2 fails (the caller then asks the full query)"""
+        arith, bits, links = [], [], []
+        for c in list(cons) + list(extras):
+            ent = s.links.get(c.get_id())
+            if ent is not None:
+                links.append(ent)
+                continue
+            hasbv = hasar = False
+            for vid, var in free_vars(c):
+                if z3.is_bv(var):
+                    hasbv = True
+                else:
+                    hasar = True
+            if hasbv and hasar:
+                return None, None
+            (bits if hasbv else arith).append(c)
+        if not links:
+            return None, None
+        nls = z3.Solver()
+        if s.o['query_timeout_ms']:
+            nls.set('timeout', s.o['query_timeout_ms'])
+        nls.add(*arith)
+        for k, v, signed, link, (lo, hi) in links:
+            nls.add(k >= lo, k <= hi)
+        r = nls.check()
+        if r == z3.unsat:
+            return 'unsat', None
+        if r != z3.sat:
+            return None, None
+        zm = nls.model()
+        fix = []
+        vals = {}
+        for c in arith:
+            for vid, var in free_vars(c):
+                vals[vid] = (var, zm.eval(var, True))
+        for k, v, signed, link, rng in links:
+            kv = zm.eval(k, True)
+            vals[k.get_id()] = (k, kv)
+            fix.append(v == z3.BitVecVal(kv.as_long(), v.size()))
+        s.nlink2 += 1
+        bs = z3.Solver()
+        if s.o['query_timeout_ms']:
+            bs.set('timeout', s.o['query_timeout_ms'])
+        bs.add(*bits)
+        bs.add(*fix)
+        if bs.check() != z3.sat:
+            s.nlinkfb += 1
+            return None, None
+        bm = bs.model()
+        for c in bits + fix:
+            for vid, var in free_vars(c):
+                vals[vid] = (var, bm.eval(var, True))
+        return 'sat', vals
 
     def fullmodel(s, st, extra=None, hint=None):
         """a partial model that is checked to satisfy the whole path condition (+ extra)"""
@@ -486,8 +591,18 @@ class Engine:
             pm = s.probe(st, cond)
             if pm is not None:
                 return True, pm
-            raise Inconclusive('solver returned unknown')
+            raise Inconclusive('solver returned unknown on ' + str(cond)[:300].replace(chr(10), ' '))
         return r == 'sat', m
+
+    def may_unsure(s, st, cond):
+        """like may(), but under option unknown_both an undecided query counts as 'possible' (path marked unsure)"""
+        try:
+            return s.may(st, cond)
+        except Inconclusive:
+            if not s.o.get('unknown_both'):
+                raise
+            st.extra['unsure'] = True
+            return True, None
 
     def probe(s, st, cond, tries=24):
         """the solver gave up: look for a satisfying assignment of pc + cond among a few random values (can only answer 'sat')"""
@@ -554,6 +669,33 @@ class Engine:
         e = z3.simplify(e)
         if z3.is_bv_value(e):
             return e.as_long()
+        lb = s.o.get('draw_low_bytes')
+        if lb:
+            fv = free_vars(e)
+            if len(fv) == 1 and fv[0][1].decl().name().startswith('drawlo!'):
+                vid, var = fv[0]
+                fixed = st.extra.get('lo_fixed') or {}
+                if vid in fixed:
+                    return z3.simplify(z3.substitute(e, (var, z3.BitVecVal(fixed[vid], 8)))).as_long()
+                alts = []
+                for b in lb:
+                    ok, _ = s.may(st, var == z3.BitVecVal(b, 8))
+                    if ok:
+                        alts.append(b)
+                if not alts:
+                    raise PathEnd()
+                for b in alts[1:]:
+                    st2 = st.fork()
+                    st2.stack[-1].ip -= 1
+                    s.assume(st2, var == z3.BitVecVal(b, 8))
+                    st2.model = None
+                    st2.extra['lo_fixed'] = {**fixed, vid: b}
+                    s.work.append(st2)
+                    s.nforks += 1
+                s.assume(st, var == z3.BitVecVal(alts[0], 8))
+                st.model = None
+                st.extra['lo_fixed'] = {**fixed, vid: alts[0]}
+                return z3.simplify(z3.substitute(e, (var, z3.BitVecVal(alts[0], 8)))).as_long()
         vals = s.enumerate(st, e, s.o['enum_limit'])
         if not vals:
             raise PathEnd()
@@ -831,6 +973,19 @@ class Engine:
             return int(base or un)
         if z3.is_fp(a) or z3.is_fp(b):
             return s.fcmp_fp(pred, a, b)
+        for x, other_first in ((a, False), (b, True)):
+            if isinstance(x, float) and (x != x or x in (float('inf'), float('-inf'))):
+                # an infinity / NaN produced earlier on this path against a (finite) real
+                if x != x:
+                    return int(pred == 'uno' or (pred[0] == 'u' and pred not in ('uno',)))
+                if pred in ('uno', 'ord'):
+                    return int(pred == 'ord')
+                big = (x > 0)                      # is x the larger side?
+                if other_first:                    # comparing (finite) ? x
+                    res = {'eq': False, 'ne': True, 'gt': not big, 'ge': not big, 'lt': big, 'le': big}[pred[1:]]
+                else:                              # comparing x ? (finite)
+                    res = {'eq': False, 'ne': True, 'gt': big, 'ge': big, 'lt': not big, 'le': not big}[pred[1:]]
+                return int(res)
         a = realv(a)
         b = realv(b)
         if pred == 'uno':
@@ -1009,6 +1164,11 @@ class Engine:
             b = z3.FPVal(b, F) if isinstance(b, float) else b
             rm = z3.RNE()
             return {'fadd': z3.fpAdd, 'fsub': z3.fpSub, 'fmul': z3.fpMul, 'fdiv': z3.fpDiv}[op](rm, a, b)
+        if op == 'fdiv' and isinstance(b, float) and b in (float('inf'), float('-inf')):
+            return 0.0          # a finite (real) numerator over an infinite divisor
+        for x in (a, b):
+            if isinstance(x, float) and (x != x or x in (float('inf'), float('-inf'))):
+                raise Violation('fp', 'an infinity or NaN produced earlier on this path enters floating-point arithmetic')
         # exact real arithmetic; special-case concrete zeros to keep terms linear
         if op == 'fmul':
             if isinstance(a, float) and a == 0.0 or isinstance(b, float) and b == 0.0:
@@ -1120,6 +1280,8 @@ class Engine:
             v = bvw(v, sty[1])
             if s.o['fp'] == 'fp':
                 return z3.fpToFP(z3.RNE(), v, z3.Float64()) if op == 'sitofp' else z3.fpToFPUnsigned(z3.RNE(), v, z3.Float64())
+            if s.o.get('int_links'):
+                return z3.ToReal(s._int_of_bv(st, z3.simplify(v), op == 'sitofp'))
             return z3.ToReal(z3.BV2Int(v, op == 'sitofp'))
         if op in ('fptoui', 'fptosi'):
             w = dty[1]
@@ -1257,6 +1419,9 @@ class Engine:
             rec = {'end': how, 'instr': st.ninstr, 'inputs': s.inputs_of(st, m), 'notes': s.notes_of(st, m),
                    'nviol': len(st.viols), 'covers': sorted(st.covers)}
         except Inconclusive as e:
+            if (st.extra.get('unsure') or s.o.get('unknown_both')) and not st.viols:
+                s.nunsure += 1       # completed without violation; whether the path is feasible at all stayed undecided
+                return
             s.inconcl.append({'why': str(e), 'where': s.where(st)})
             return
         for c in st.covers:
@@ -1362,7 +1527,25 @@ class Engine:
             raise PathEnd()          # outside the stated bound of this family (listed in its assumptions)
         if name == '@cmb_random_sfc64' and s.o.get('sym_draws'):
             # C16: any 64-bit value can come out of the generator: a fresh symbol per raw draw
-            r = s.fresh(st, 'draw', 64)
+            md = s.o.get('max_draws')
+            if md is not None:
+                n = st.extra.get('ndraws', 0) + 1
+                if n > md:
+                    s.nskipped += 1
+                    raise PathEnd()      # rejection loops are cut after max_draws raw draws (stated bound)
+                st.extra['ndraws'] = n
+            lb = s.o.get('draw_low_bytes')
+            if lb:
+                # stated bound: only these ziggurat layers (low byte of the raw draw) are explored.  The draw is the
+                # concatenation of a symbolic upper part and a symbolic layer index; the index is forked over the
+                # configured layers when (and only when) it is used as a table index: see concretize()
+                s.symcount += 1
+                hi = z3.BitVec('drawhi!%d' % len(st.syms), 56)
+                lo = z3.BitVec('drawlo!%d' % len(st.syms), 8)
+                r = z3.Concat(hi, lo)
+                st.syms.append(('draw', r, 'bv'))
+            else:
+                r = s.fresh(st, 'draw', 64)
             if dst:
                 st.stack[-1].regs[dst] = r
             return
@@ -1611,12 +1794,20 @@ class Engine:
         if t_ok is None:
             r, tm = s.query(st, cond)
             if r == 'unknown':
-                raise Inconclusive('solver unknown at branch')
+                if not s.o.get('unknown_both'):
+                    raise Inconclusive('solver unknown at branch')
+                # feasibility undecided: follow the side anyway (sound for the claim: every assertion on it is still
+                # decided by the solver, a violation still needs a model); the path is counted as 'unsure'
+                r, tm = 'sat', None
+                st.extra['unsure'] = True
             t_ok = r == 'sat'
         if f_ok is None:
             r, fm = s.query(st, ncond)
             if r == 'unknown':
-                raise Inconclusive('solver unknown at branch')
+                if not s.o.get('unknown_both'):
+                    raise Inconclusive('solver unknown at branch')
+                r, fm = 'sat', None
+                st.extra['unsure'] = True
             f_ok = r == 'sat'
         if t_ok and f_ok:
             st2 = st.fork()
@@ -2002,13 +2193,28 @@ def _libm_unsupported(name):
             if name == 'exp':
                 s.assume(st, r > 0)
             elif name == 'log':
-                ok, m = s.may(st, x <= 0)
+                ok, m = s.may(st, x < 0)
                 if ok:
-                    s.report(st, 'fp', 'log of a value that can be zero or negative (-inf / NaN)', x <= 0, m)
-                    okn, mn = s.may(st, x > 0)
+                    s.report(st, 'fp', 'log of a value that can be negative (NaN)', x < 0, m)
+                    okn, mn = s.may(st, x >= 0)
                     if not okn:
                         raise PathEnd()
-                    s.assume(st, x > 0, mn)
+                    s.assume(st, x >= 0, mn)
+                ok0, m0 = s.may_unsure(st, x == 0)
+                if ok0:
+                    # log(0) = -inf: harmless when only compared, a violation once it enters arithmetic or the result
+                    okp, mp = s.may_unsure(st, x > 0)
+                    if not okp:
+                        s.assume(st, x == 0, m0)
+                        return float('-inf')
+                    st2 = st.fork()
+                    s.assume(st2, x == 0, m0)
+                    dst = ins[1] if ins is not None else None
+                    if dst:
+                        st2.stack[-1].regs[dst] = float('-inf')
+                    s.work.append(st2)
+                    s.nforks += 1
+                    s.assume(st, x > 0, mp)
                 s.assume(st, z3.And(z3.Implies(x == 1, r == 0), z3.Implies(x < 1, r < 0), z3.Implies(x > 1, r > 0)))
             elif name == 'pow' and len(args) == 2:
                 y = args[1]
